@@ -132,3 +132,11 @@ Section Invalid.
                    mapped dest s1 = Some tb1 -> mapped dest s2 = Some tb2 -> path_eqb tb2 tb1 = true ->
                    Invalid sources dest.
 End Invalid.
+
+(* ------------------------------------------------------------------ *)
+(* option plumbing: Config::from(&Opts) (src/options.rs) and            *)
+(* Config::num_workers (libxcp/src/config.rs)                           *)
+(* ------------------------------------------------------------------ *)
+(* `-w 0` means one worker per CPU; both the CLI and the library resolve it the same way.  ncpus = num_cpus::get(),
+   which is at least 1. *)
+Definition num_workers (workers ncpus : N) : N := if workers =? 0 then ncpus else workers.
